@@ -79,7 +79,7 @@ extern long mpt_buffer_set(MPT_STRUCT(buffer) *buf, const MPT_STRUCT(type_traits
 	/* terminate overlapping target data */
 	if (fini) {
 		size_t off;
-		for (off = pos; off < used; off += elem_size) {
+		for (off = pos; off < used && off < end; off += elem_size) {
 			fini(ptr + off);
 		}
 	}
@@ -121,6 +121,8 @@ extern long mpt_buffer_set(MPT_STRUCT(buffer) *buf, const MPT_STRUCT(type_traits
 			else if (init(ptr + pos, 0) < 0) {
 				/* invalidate remaining data as result of fatal error */
 				buf->_used = pos;
+				/* overlapping elements are already terminated */
+				pos = end;
 				if (fini) {
 					while (pos < used) {
 						fini(ptr + pos);
